@@ -26,6 +26,8 @@ type headMeta struct {
 	closed     bool
 	delta      int
 	last       *heldCall
+	// grp: overlapping Head() calls form one group (they must share one request)
+	grp int
 }
 
 func (w *SWorld) subjective() *vk.H {
@@ -157,6 +159,41 @@ func c19Oracle(run *vk.Run, w *SWorld, cfg SCfg, hist []Ev, metas map[*spawned]*
 			}
 		}
 	}
+	// concurrent callers share one request: for every group of overlapping Head() calls issued on a
+	// stale (not recent, not expired) subjective head, exactly one head request is made in total,
+	// whatever its answer is
+	type grpInfo struct {
+		first, end int
+		open       bool
+		stale      bool
+		n          int
+	}
+	groups := map[int]*grpInfo{}
+	for _, c := range w.Calls {
+		m := metas[c]
+		if c.Kind != "headcall" || m == nil {
+			continue
+		}
+		g := groups[m.grp]
+		if g == nil {
+			g = &grpInfo{first: m.headCalls, stale: m.subj != nil && !m.recent && !m.expired}
+			groups[m.grp] = g
+		}
+		g.n++
+		if !m.closed {
+			g.open = true
+		} else if e := m.headCalls + m.delta; e > g.end {
+			g.end = e
+		}
+	}
+	for id, g := range groups {
+		if g.open || !g.stale || g.n < 2 {
+			continue
+		}
+		if reqs := g.end - g.first; reqs != 1 {
+			viol("concurrent-callers-do-not-share-one-request", "group %d of %d overlapping Head() calls on one stale subjective head caused %d head requests, want exactly 1", id, g.n, reqs)
+		}
+	}
 	_ = now
 }
 
@@ -206,6 +243,7 @@ func TestC19(t *testing.T) {
 				return
 			}
 			metas := map[*spawned]*headMeta{}
+			ngrp := 0
 			for _, e := range hist {
 				var m *headMeta
 				if e.K == "headcall" {
@@ -217,11 +255,14 @@ func TestC19(t *testing.T) {
 						m.recent = age <= c19Recency
 						m.expired = age > c19Trusting
 					}
+					ngrp++
+					m.grp = ngrp
 					for _, c := range w.Calls {
 						if c.Kind == "headcall" && !c.call.Done() {
 							m.alone = false
 							if om := metas[c]; om != nil {
 								om.alone = false
+								m.grp = om.grp
 							}
 						}
 					}
@@ -260,7 +301,7 @@ func TestC19(t *testing.T) {
 	}
 	depth := vk.Pick(run, 5, 7)
 	run.Set("depth", depth)
-	dl := vk.NewDeadline(vk.Pick(run, 10*time.Minute, 120*time.Minute))
+	dl := vk.NewDeadline(vk.Pick(run, 10*time.Minute, 45*time.Minute))
 	cfgs := []SCfg{
 		{N: 10, S: 3, Batch: 1, Hold: true},                                    // fresh head
 		{N: 10, S: 3, Batch: 1, Hold: true, HeadAgeS: 100, FreshAfterS: true},  // stale head at start
